@@ -95,6 +95,11 @@ def envprobe(wdir):
         penv = {"GOMAXPROCS": n}
         if first:
             penv["PV_FIRSTUSE"] = first
+        if n != "1":
+            for nm in env_names_read_by_repo():
+                if nm not in ("GOMAXPROCS",):
+                    e[nm] = "1"
+                    penv[nm] = "1"
         rc, out, dt = sh([PV, "dump", d], env=e, timeout=600)
         diff = []
         if rc == 0:
@@ -318,6 +323,33 @@ HOSTILE_ENVS = [
 ]
 
 
+def env_names_read_by_repo():
+    """Names of environment variables the library's (non-test) source reads through os.Getenv / os.LookupEnv
+    with a literal argument.  They are not an alarm by themselves; they tell the environment probes which
+    variables to set."""
+    names = set()
+    for root, dirs, files in os.walk(REPO):
+        dirs[:] = [d for d in dirs if not d.startswith(".") and d not in ("examples", "test-images", "test-profiles")]
+        for f in files:
+            if f.endswith(".go") and not f.endswith("_test.go"):
+                try:
+                    src = open(os.path.join(root, f), encoding="utf-8", errors="replace").read()
+                except OSError:
+                    continue
+                for m in re.finditer(r'os\.(?:Getenv|LookupEnv)\(\s*"([A-Za-z_][A-Za-z0-9_]*)"', src):
+                    names.add(m.group(1))
+    return sorted(names)
+
+
+def hostile_envs():
+    envs = [dict(e) for e in HOSTILE_ENVS]
+    extra = [n for n in env_names_read_by_repo() if n not in envs[0]]
+    for i, e in enumerate(envs):
+        for n in extra:
+            e[n] = ["1", "true"][i % 2]
+    return envs
+
+
 def envrun(pid, tier, seed, wdir, timeout):
     """The same correspondence cases in a fresh process under another locale / time zone / GOMAXPROCS:
     what the library returns must still be what the model says (the model has no environment).
@@ -328,7 +360,7 @@ def envrun(pid, tier, seed, wdir, timeout):
         model = open(os.path.join(wdir, "model.txt"), encoding="utf-8", errors="replace").read().split("\n")
     except OSError:
         return problems, directs, {"skipped": "no main run"}
-    for k, he in enumerate(HOSTILE_ENVS[:(2 if tier == "thorough" else 1)]):
+    for k, he in enumerate(hostile_envs()[:(2 if tier == "thorough" else 1)]):
         d = os.path.join(wdir, "envrun%d" % k)
         os.makedirs(d, exist_ok=True)
         env = goenv()
@@ -336,7 +368,7 @@ def envrun(pid, tier, seed, wdir, timeout):
         env.update(he)
         rc, out, dt = sh([PV, "corr", pid, tier, str(seed), d], env=env, timeout=timeout)
         info["env%d_s" % k] = round(dt, 2)
-        tag = ",".join("%s=%s" % kv for kv in sorted(he.items()) if kv[0] in ("LANG", "TZ", "GOMAXPROCS"))
+        tag = ",".join("%s=%s" % kv for kv in sorted(he.items()) if kv[0] not in ("LC_ALL", "LC_MESSAGES", "LANGUAGE"))
         if rc != 0:
             problems.append({"kind": "env", "env": he, "what": "the correspondence harness fails under " + tag, "detail": out[-1500:]})
             continue
